@@ -225,6 +225,12 @@ type RtcpSpec struct {
 	RR       int  `json:"rr"`    // reception reports in the leading receiver report
 	Cname    int  `json:"cname"` // CNAME length in the SDES
 	Ver2     bool `json:"ver2"`  // raw single packet: version bits = 2
+	// RRExt: bytes of profile-specific extension appended to the receiver report (pion's
+	// ReceiverReport.MarshalSize() does not count them, Marshal() writes them: a size check made on
+	// MarshalSize() under-estimates such packets — seeded change C18-r6-1); RROnly: the receiver report
+	// is written alone, not inside a compound packet
+	RRExt  int  `json:"rr_ext,omitempty"`
+	RROnly bool `json:"rr_only,omitempty"`
 }
 
 func rawRTCP(n int, ver2 bool) *rtcp.RawPacket {
@@ -254,13 +260,26 @@ func rawRTCP(n int, ver2 bool) *rtcp.RawPacket {
 
 // Build returns the pion packet and the marshalled length of each part (measured with pion).
 func (s RtcpSpec) Build() (rtcp.Packet, []int, error) {
-	if !s.Compound {
+	if !s.Compound && !s.RROnly {
 		p := rawRTCP(s.Raw, s.Ver2)
 		return p, []int{len(*p)}, nil
 	}
 	rr := &rtcp.ReceiverReport{SSRC: 1}
 	for i := 0; i < s.RR; i++ {
 		rr.Reports = append(rr.Reports, rtcp.ReceptionReport{SSRC: uint32(i + 2)})
+	}
+	if s.RRExt > 0 {
+		rr.ProfileExtensions = make([]byte, s.RRExt)
+		for i := range rr.ProfileExtensions {
+			rr.ProfileExtensions[i] = byte(i)
+		}
+	}
+	if s.RROnly {
+		b, err := rr.Marshal()
+		if err != nil {
+			return nil, nil, err
+		}
+		return rr, []int{len(b)}, nil
 	}
 	sd := &rtcp.SourceDescription{Chunks: []rtcp.SourceDescriptionChunk{{
 		Source: 1, Items: []rtcp.SourceDescriptionItem{{Type: rtcp.SDESCNAME, Text: strings.Repeat("c", s.Cname)}},
@@ -282,6 +301,13 @@ func (s RtcpSpec) Build() (rtcp.Packet, []int, error) {
 
 // randRtcpFor aims at a marshalled length of total bytes.
 func randRtcpFor(r *rand.Rand, total int, compound bool) RtcpSpec {
+	if total >= 8+24 && total%4 == 0 && r.IntN(4) == 0 {
+		// a lone receiver report carrying a profile-specific extension of the right length
+		rrn := r.IntN(2)
+		if ext := total - 8 - 24*rrn; ext > 0 {
+			return RtcpSpec{RROnly: true, Ver2: true, RR: rrn, RRExt: ext}
+		}
+	}
 	if !compound || total < 8+12+8 {
 		return RtcpSpec{Raw: total, Ver2: true}
 	}
@@ -296,6 +322,10 @@ func randRtcpFor(r *rand.Rand, total int, compound bool) RtcpSpec {
 			return s
 		}
 		if have+8 <= total {
+			if (total-have)%4 == 0 && r.IntN(3) == 0 {
+				s.RRExt = total - have // the filler is a profile extension of the receiver report
+				return s
+			}
 			s.Raw = total - have
 			return s
 		}
